@@ -191,24 +191,25 @@ class Cox(Loss):
 
 
 class SqrtQuadratic(Loss):
+    """docstring: ||y - Xw||_2 (unnormalised)."""
     name = "SqrtQuadratic"
     stackable = False
 
     def value(self, y, eta):
-        return float(norm(y - eta) / np.sqrt(len(y)))
+        return float(norm(y - eta))
 
     def grad(self, y, eta):
         r = eta - y
-        return r / (norm(r) * np.sqrt(len(y)))
+        return r / norm(r)
 
     def hess_full(self, y, eta):
         r = eta - y
         nr = norm(r)
-        n = len(y)
-        return (np.eye(n) / nr - np.outer(r, r) / nr ** 3) / np.sqrt(n)
+        return np.eye(len(y)) / nr - np.outer(r, r) / nr ** 3
 
 
 class Pinball(Loss):
+    """docstring: sum_i q max(y_i - eta_i, 0) + (1-q) max(eta_i - y_i, 0) (unnormalised)."""
     name = "Pinball"
     stackable = False
 
@@ -217,7 +218,17 @@ class Pinball(Loss):
 
     def value(self, y, eta):
         r = y - eta
-        return float((self.q * np.maximum(r, 0) + (1 - self.q) * np.maximum(-r, 0)).sum() / len(y))
+        return float((self.q * np.maximum(r, 0) + (1 - self.q) * np.maximum(-r, 0)).sum())
+
+
+class SVCDual(Loss):
+    """QuadraticSVC: with M = (y X)^T (shape n_features x n_samples) and dual variable w:
+    1/2 ||M w||^2 - sum(w); as a function of theta = M w and w."""
+    name = "QuadraticSVC"
+    stackable = False
+
+    def value_w(self, theta, w):
+        return float(.5 * (theta ** 2).sum() - np.sum(w))
 
 
 class QuadraticMultiTask(Loss):
